@@ -158,3 +158,56 @@ theorem C01_verifiers_are_translated (names : List Name) (dialed : Name) (p : Ke
       cases spkiAlg <;> cases sigAlg <;> simp <;> (try (by_cases h1 : spki = p <;> by_cases h2 : signer = spki <;> simp [h1, h2]))
 
 end Anemo
+
+namespace Anemo
+
+/-- one connection attempt against an honest endpoint, seen from that endpoint: somebody dials it
+(hello name, certificate or none, transcript signature), or it dials somebody (with or without an
+expected identity) and gets a certificate and a signature back -/
+inductive Attempt where
+  | inbound (sni : Name) (c? : Option Cert) (hs : HsSig)
+  | outbound (pin? : Option Key) (dialed : Name) (c : Cert) (hs : HsSig)
+
+def Attempt.sig : Attempt → HsSig
+  | .inbound _ _ hs => hs
+  | .outbound _ _ _ hs => hs
+
+/-- the identity the endpoint attributes to the other end of an attempt, if it admits it -/
+def Attempt.attributed (accepted own : List Name) : Attempt → Option Key
+  | .inbound sni c? hs => serverAccepts accepted sni c? hs
+  | .outbound pin? dialed c hs => clientAccepts own pin? dialed c hs
+
+/-- every identity the endpoint ever attributes over a history of attempts -/
+def attributedOver (accepted own : List Name) (h : List Attempt) : List Key :=
+  h.filterMap (Attempt.attributed accepted own)
+
+/-- **Over every history of connection attempts, in both directions, of any length**: a party (or
+coalition) holding exactly the private keys `A` - replaying honest certificates, presenting forged or
+malformed ones, dialling or being dialled, any number of times in any order - is only ever attributed
+identities in `A`. So no `X ∉ A` is ever admitted, listed or attributed because of it. -/
+theorem C01_history_no_impersonation (A : List Key) (accepted own : List Name) (h : List Attempt)
+    (hadv : ∀ a ∈ h, advSig A a.sig) : ∀ k ∈ attributedOver accepted own h, k ∈ A := by
+  intro k hk
+  unfold attributedOver at hk
+  obtain ⟨a, ha, hak⟩ := List.mem_filterMap.mp hk
+  have hs := hadv a ha
+  cases a with
+  | inbound sni c? hs' =>
+    cases c? with
+    | none => simp [Attempt.attributed, serverAccepts] at hak
+    | some c => exact C01_no_impersonation_server A accepted sni c hs' k hs hak
+  | outbound pin? dialed c hs' => exact C01_no_impersonation_client A own pin? dialed c hs' k hs hak
+
+/-- in particular an identity whose key the adversary lacks never appears, however the attempts are chosen -/
+theorem C01_history_never_X (A : List Key) (X : Key) (hX : X ∉ A) (accepted own : List Name) (h : List Attempt)
+    (hadv : ∀ a ∈ h, advSig A a.sig) : X ∉ attributedOver accepted own h :=
+  fun hin => hX (C01_history_no_impersonation A accepted own h hadv X hin)
+
+/-- non-vacuity: an adversary holding key 7 that replays the certificate of 9, forges one for 9 signed by
+7, and finally connects honestly as 7 is attributed 7 once and 9 never -/
+example : attributedOver [[0x61]] [[0x61]]
+    [ .inbound [0x61] (some (honestCert 9 [0x61])) ⟨7, .ed25519⟩,
+      .inbound [0x61] (some { honestCert 9 [0x61] with signer := 7 }) ⟨7, .ed25519⟩,
+      .outbound (some 9) [0x61] (honestCert 9 [0x61]) ⟨7, .ed25519⟩,
+      .inbound [0x61] (some (honestCert 7 [0x61])) ⟨7, .ed25519⟩ ] = [7] := by decide
+end Anemo
